@@ -13,7 +13,7 @@ RULE = ("every (generator, width, carry flags) with adder w<=4 (quick 3), mux w<
         "non-trivial = a block with at least one gate or a helper call with a non-zero argument; distinct = (function, arguments)")
 EXPLANATION = ("adder/mux/half/full adder and the helpers proved for every width over the model; model = implementation result by graph "
                "equality; arithmetic specification evaluated in Coq on the returned circuit for all input vectors")
-SHARD = 25
+SHARD = 16
 HASHSEEDS = {"quick": [0], "thorough": [0, 1]}
 
 
@@ -45,6 +45,8 @@ def generate(rng, tier):
     for w in range(0, 4 if q else 5):
         for ci in (False, True):
             for co in (False, True):
+                if q and w == 3 and ci != co:
+                    continue            # quick: two of the four flag sets at the largest width
                 out.append({"fn": "adder", "w": w, "ci": ci, "co": co})
     out += [{"fn": "mux", "w": w} for w in range(0, 7 if q else 9)]
     out += [{"fn": "popcount", "w": w} for w in range(0, 5 if q else 7)]
